@@ -227,6 +227,14 @@ fn odd_inputs() -> Vec<(ReadInput, bool)> {
     for (name, t) in texts {
         v.push((ReadInput { name: format!("{name} ({} bytes)", t.len()), container: Some(Container::Vcf), bytes: Arc::new(t.into_bytes()), threads: 1, first_block: 0 }, false));
     }
+    // BGZF blocks that hold one or two bytes each: the first block is shorter than the magic string
+    for c in [Container::Bcf, Container::VcfGz] {
+        for k in [1usize, 2] {
+            let bytes = render(&cs, c, &Layout::Fixed(k));
+            let first_block = u16::from_le_bytes([bytes[16], bytes[17]]) as usize + 1;
+            v.push((ReadInput { name: format!("{} in blocks of {k} byte(s) ({} bytes)", c.name(), bytes.len()), container: Some(c), bytes: Arc::new(bytes), threads: if k == 1 { 1 } else { 2 }, first_block }, false));
+        }
+    }
     // one bit of the checksum of a middle BGZF block flipped
     for c in [Container::VcfGz, Container::Bcf] {
         let mut bytes = render(&cs, c, &Layout::PerUnit);
@@ -642,12 +650,26 @@ pub fn run(tier: Tier) -> i32 {
     {
         let odd = odd_inputs();
         let obases: Vec<Result<CreateResult, String>> = odd.iter().map(|(i, _)| observe(i, &Schedule::whole()).0).collect();
+        // the tiny-block inputs hold the same call data as every other container: the same result
+        for (i, (inp, _)) in odd.iter().enumerate() {
+            if inp.name.contains("in blocks of") && !matches!(&obases[i], Ok(r) if same_result(r, &bases[0])) {
+                rep.violation(
+                    format!("C18|lib|tiny-blocks-misread|{}", inp.container.map_or("npy", |c| c.name())),
+                    format!("{} delivered in one chunk gives {:?}, the same call data in {} gives {:?}", inp.name, obases[i].as_ref().map(|c| &c.spectrum.data), inputs[0].name, bases[0].spectrum.data),
+                    { let mut j = case_j(inp, &Schedule::whole()); if let J::Obj(o) = &mut j { o.push(("odd".into(), J::Bool(true))); o.push(("must_fail".into(), J::Bool(false))); o.push(("tiny_blocks".into(), J::Bool(true))); } j },
+                );
+            }
+        }
         let mut ojobs: Vec<(usize, Schedule)> = Vec::new();
         for (i, (inp, _)) in odd.iter().enumerate() {
             let len = inp.bytes.len();
             ojobs.push((i, Schedule::whole()));
+            // (the inputs of tens of KiB made of tiny blocks: cuts in the first 300 bytes and at every 97th offset)
+            let coarse = inp.name.contains("in blocks of");
             for c in 1..len {
-                ojobs.push((i, Schedule::cuts(&[c])));
+                if !coarse || c < 300 || c % 97 == 0 {
+                    ojobs.push((i, Schedule::cuts(&[c])));
+                }
             }
             for k in [1usize, 2, 3, 7, 64, 4099] {
                 ojobs.push((i, Schedule::periodic(k)));
@@ -691,7 +713,7 @@ pub fn run(tier: Tier) -> i32 {
             name: "lib: inputs at the edge of the format under every chunk schedule".into(),
             evaluations: ojobs.len() as u64 + n_cli,
             nontrivial: ojobs.len() as u64 - odd.len() as u64 + n_cli,
-            note: format!("{} inputs (the call set as VCF with CRLF line ends, with a blank line behind the header / between records / at the end in LF and CRLF, without the final line end; vcf.gz and bcf with one checksum bit of a middle block flipped, 1 and 2 inflater threads) x every single cut and periodic chunks of 1,2,3,7,64,4099 bytes: the outcome - the same result, or a refusal - must not depend on the schedule ({refused} inputs are refused in one chunk), and a block failing its checksum is refused under every schedule, and by `sfs create` (path, stdin, --strict, -q) with a diagnosed error and nothing printed", odd.len()),
+            note: format!("{} inputs (the call set as VCF with CRLF line ends, with a blank line behind the header / between records / at the end in LF and CRLF, without the final line end; bcf and vcf.gz in BGZF blocks of one and of two bytes; vcf.gz and bcf with one checksum bit of a middle block flipped, 1 and 2 inflater threads) x every single cut and periodic chunks of 1,2,3,7,64,4099 bytes: the outcome - the same result, or a refusal - must not depend on the schedule ({refused} inputs are refused in one chunk), and a block failing its checksum is refused under every schedule, and by `sfs create` (path, stdin, --strict, -q) with a diagnosed error and nothing printed", odd.len()),
             exhaustive: true,
             extra: vec![("refused_in_one_chunk".into(), J::u(refused))],
         });
@@ -805,7 +827,8 @@ pub fn run(tier: Tier) -> i32 {
     }
     // failing sinks at L2: a full device as stdout and as the -o target
     {
-        let full = std::path::Path::new("/dev/full");
+        let full_path = crate::cli::private_device(true);
+        let full = std::path::Path::new(full_path);
         let vcf = render(&cs, Container::Vcf, &Layout::Single);
         let small = crate::subject::text_of(&crate::refmodel::RefArray::from_fn(&[3, 4], |f, _| f as f64 + 1.0));
         let big = crate::subject::text_of(&crate::refmodel::RefArray::from_fn(&[120, 120], |f, _| f as f64 + 0.5));
@@ -820,8 +843,8 @@ pub fn run(tier: Tier) -> i32 {
             fjobs.push((vec!["view"], inp.clone().into_bytes(), "view text"));
             fjobs.push((vec!["view", "-O", "npy"], inp.clone().into_bytes(), "view npy"));
             fjobs.push((vec!["fold"], inp.clone().into_bytes(), "fold"));
-            fjobs.push((vec!["view", "-o", "/dev/full"], inp.clone().into_bytes(), "view -o"));
-            fjobs.push((vec!["view", "-O", "npy", "-o", "/dev/full"], inp.clone().into_bytes(), "view npy -o"));
+            fjobs.push((vec!["view", "-o", full_path], inp.clone().into_bytes(), "view -o"));
+            fjobs.push((vec!["view", "-O", "npy", "-o", full_path], inp.clone().into_bytes(), "view npy -o"));
         }
         // each job with stdout on the full device (ENOSPC) and, when it writes to stdout, on a pipe
         // whose reader is gone (EPIPE)
@@ -902,6 +925,7 @@ pub fn run(tier: Tier) -> i32 {
                     crate::cli::run_sfs_output_fifo(&a, &text, ".out", &scratch)
                 }
                 path => {
+                    let path = if path == "/dev/null" { crate::cli::private_device(false) } else { path };
                     a.extend([oflag, path]);
                     let o = run_sfs(&a, Stdin::Bytes(&text), &scratch);
                     let got = o.stdout.clone();
@@ -989,6 +1013,13 @@ pub fn replay(case: &J) -> Option<Vec<String>> {
                 period: case.get("period")?.as_i64()? as usize,
                 fault_at: case.get("fault_at").and_then(|x| x.as_i64()).map(|x| x as usize),
             };
+            if case.get("tiny_blocks").is_some() {
+                // the reference: the call set of the check as plain VCF
+                let plain = ReadInput { name: "vcf".into(), container: Some(Container::Vcf), bytes: Arc::new(render(&call_set(), Container::Vcf, &Layout::Single)), threads: 1, first_block: 0 };
+                let reference = observe(&plain, &Schedule::whole()).0.ok()?;
+                let got = observe(&inp, &Schedule::whole()).0;
+                return Some(if matches!(&got, Ok(r) if same_result(r, &reference)) { vec![] } else { vec![format!("C18|lib|tiny-blocks-misread :: {:?}", got.as_ref().map(|c| &c.spectrum.data))] });
+            }
             if case.get("odd").is_some() {
                 let must_fail = matches!(case.get("must_fail"), Some(J::Bool(true)));
                 let base = observe(&inp, &Schedule::whole()).0;
@@ -1026,7 +1057,7 @@ pub fn replay(case: &J) -> Option<Vec<String>> {
             let a: Vec<&str> = args.iter().map(|s| s.as_str()).collect();
             let scratch = Scratch::new("c18r");
             let closed = case.get("sink").and_then(|s| s.as_str()) == Some("closed-pipe");
-            let o = if a.contains(&"-o") { run_sfs(&a, Stdin::Bytes(&inp), &scratch) } else if closed { crate::cli::run_sfs_stdout_closed_pipe(&a, &inp, &scratch) } else { run_sfs_stdout_to(&a, &inp, std::path::Path::new("/dev/full"), &scratch) };
+            let o = if a.contains(&"-o") { run_sfs(&a, Stdin::Bytes(&inp), &scratch) } else if closed { crate::cli::run_sfs_stdout_closed_pipe(&a, &inp, &scratch) } else { run_sfs_stdout_to(&a, &inp, std::path::Path::new(crate::cli::private_device(true)), &scratch) };
             Some(if o.diagnosed_error() { vec![] } else { vec![format!("C18|cli|write-failure-not-reported :: {a:?}: {} {:?}", o.status_str(), o.stderr_str())] })
         }
         "c18-spectrum-pipe" => {
